@@ -14,6 +14,8 @@ CONSTANTS
   MaxRepeat = 1
   DetOrder = FALSE
   Mults <- M1
+  Orgs <- Org0
+  RewriteScratch = FALSE
   SortedDel = "scan"
   MetKeyWraps = TRUE
   SkipTooBig = TRUE
